@@ -179,6 +179,24 @@ func cmdCheck(args []string) int {
 		vc.attachFindings(findings, prop)
 		vcs = append(vcs, vc)
 	}
+	// package invariants: verify the package initialiser establishes them and nobody else writes the globals
+	invPkgs := map[string]bool{}
+	for _, inv := range ss.Invs {
+		if hasProp(inv.Props, prop) && ctx.typPkgs[inv.Pkg] != nil && !invPkgs[inv.Pkg] {
+			invPkgs[inv.Pkg] = true
+			key := inv.Pkg + ".init"
+			fn := ctx.lookupFunc(key)
+			if fn == nil {
+				undecided = append(undecided, shortKey(key)+": package initialiser not found")
+				continue
+			}
+			ct := ss.Contracts[key]
+			vc := ctx.genFunc(fn, ct, nil)
+			vc.Obls = append(vc.Obls, ctx.globalWriteScan(inv.Pkg, ss.Invs)...)
+			vc.attachFindings(findings, prop)
+			vcs = append(vcs, vc)
+		}
+	}
 	for _, l := range lemmas {
 		vc := ctx.genLemma(l)
 		vc.attachFindings(findings, prop)
